@@ -6,8 +6,8 @@ CONSTANTS
   MaxVer = 2
   VKinds <- AvcCore
   DtPool <- Dt2
-  AscPool = {1, 2}
+  AscPool = {1, 2, 3}
   ProbeMax = 16
   GopNum = 1
-INVARIANTS AllOk EndComplete
+INVARIANTS WitnessV
 VIEW View
